@@ -32,7 +32,7 @@ RULE = ('2-3 source objects, 1-2 targets with 2-6 allow_refs parameters (bounded
         'every link kind x ctor|late x every follow-up pair; after every step the oracle recomputes every linked value from the observed '
         'sources and checks the _sync_refs watchers of every source against the observed refs. non-trivial = at least one source update '
         'was propagated into a target; distinct = distinct canonical case')
-COVERAGE_TARGETS = ['ctor:par', 'ctor:fn', 'ctor:rx', 'ctor:nested', 'ctor:skipfn', 'late:par:ok', 'late:fn:ok', 'late:rx:ok', 'late:nested:ok',
+COVERAGE_TARGETS = ['ctor:par', 'ctor:fn', 'ctor:fn-kw', 'ctor:fn-nested', 'ctor:fn-nestedkw', 'ctor:fn-dep', 'ctor:fn-nesteddep', 'ctor:fn-nestedkwdep', 'late:fn-kw:ok', 'late:fn-nested:ok', 'late:fn-nestedkw:ok', 'ctor:rx', 'ctor:nested', 'ctor:nested2', 'late:nested2:ok', 'ctor:skipfn', 'late:par:ok', 'late:fn:ok', 'late:rx:ok', 'late:nested:ok',
                     'late:skipfn:ok', 'set:ref:linked:skip', 'set:ref:free:skip',
                     'set:ref:free:ok', 'set:ref:linked:ok', 'set:plain:linked:ok', 'srcSet:synced:ok', 'srcSet:sync:ValueError',
                     'srcSet:quiet:ok', 'ctxEnter:ok', 'ctxExit:ok', 'update:ok', 'setCls:ok', 'ctxEnter:form:kw', 'ctxEnter:form:dict', 'ctxEnter:form:pos',
@@ -57,8 +57,15 @@ def directed():
     links = {
         'par': R.par(0, 0),
         'fn': R.fn([[0, 0], [1, 1]], 1),
+        'fn-kw': R.fn([[0, 0], [1, 1]], 1, shape='kw'),
+        'fn-nested': R.fn([[0, 0], [1, 1]], 1, shape='nested'),
+        'fn-nestedkw': R.fn([[0, 0], [1, 1]], 1, shape='nestedkw'),
+        'fn-dep': R.fn([[0, 0], [1, 1]], 1, shape='dep'),
+        'fn-nesteddep': R.fn([[0, 0], [1, 1]], 1, shape='nesteddep'),
+        'fn-nestedkwdep': R.fn([[0, 0], [1, 1]], 1, shape='nestedkwdep'),
         'rx': R.fn([[0, 0], [2, 0]], 2, True),
         'nested': R.cont(R.par(0, 0), R.fn([[1, 0]], 0, True)),
+        'nested2': R.cont2([R.par(0, 0), R.lit(7)], [R.fn([[1, 0]], 0), R.fn([[0, 0], [2, 0]], 1, shape='kw')]),
         'skipfn': R.fn([[0, 0]], 0, sk=2),          # raises Skip now (S0.v0 = 1), yields a value from 2 on
     }
     def follow(slot, other):
@@ -85,10 +92,12 @@ def directed():
              ((0, 0, 3), (0, 1, 1), (1, 0, 2), (1, 1, 0), (2, 0, 1), (2, 1, 4), (0, 0, 0))]
     npi = 0
     for (lk, ref), late, two in itertools.product(links.items(), (False, True), (False, True)):
-        slot = 2 if lk == 'nested' else 0
+        slot = 2 if lk == 'nested' else 6 if lk == 'nested2' else 0
         other = 1
         names = list(follow(slot, other))
         for a, b in itertools.product(names, names):
+            if (lk.startswith('fn-') or lk == 'nested2') and (a, b) not in (('src-dep', 'src-other'), ('src-other', 'src-dep'), ('override', 'src-dep'), ('relink', 'src-dep'), ('ctx', 'src-dep')):
+                continue
             if two and (a, b) not in (('src-dep', 'override'), ('relink', 'src-dep'), ('override', 'relink'), ('src-bad', 'src-dep'),
                                       ('relink-skip', 'src-dep'), ('relink-skip', 'unskip')):
                 continue
